@@ -1,12 +1,50 @@
-"""C04  (shared soup driver)
+"""C04  No description text is silently dropped.
 
-spec/PlssDesc.tla       token-level input space (every token sequence x configuration)
-spec/ObsInvariants.tla  Returned / AtLeastOneTract
-spec/PlssDescTrace.tla  verdicts
+spec/PlssDesc.tla       token sequences whose LONG text tokens are unique foreign marker words
+spec/ObsInvariants.tla  ClauseC04: every marker is in a tract description or in an unused_desc flag
+spec/PlssDoc.tla        document shapes that are rendered, damaged and seeded with marker words
 """
-from .. import core, plsssoup
+from .. import core, plssdoc, plsssoup, plsstok
+from .. import render as R
 
 PROP = "C04"
+DOC_CONFIGS = [None, "segment", "sec_within", "sec_colon_required", "sec_colon_cautious", "segment,sec_within",
+               "TRS_desc", "desc_STR", "S_desc_TR", "TR_desc_S", "copy_all", "segment,sec_colon_cautious"]
+
+
+def damage(text, rng):
+    words = text.split(" ")
+    r = rng.random()
+    if r < 0.2:
+        return text.replace(":", "")
+    if r < 0.4 and len(words) > 2:
+        del words[rng.randrange(len(words))]
+        return " ".join(words)
+    if r < 0.5:
+        return text + " " + R.render_tr(rng.choice([1, 2, 3]), rng)
+    if r < 0.6:
+        return R.render_sec([rng.randint(1, 36)], [], rng.random() < 0.5, rng) + " " + text
+    return text
+
+
+def doc_cases(ctx, shapes, per_shape, prefix="d"):
+    cases = []
+    for i, a in enumerate(shapes):
+        doc = plssdoc.concretise(a, ctx.rng)
+        for k in range(per_shape):
+            text = damage(plssdoc.render_doc(doc, ctx.rng), ctx.rng)
+            words = text.split(" ")
+            markers = []
+            for m in range(4):          # four insertion points per text
+                pos = ctx.rng.randint(0, len(words))
+                mid = 10 + len(markers)
+                words.insert(pos, R.marker(mid))
+                markers.append(mid)
+            cfg = ctx.rng.choice(DOC_CONFIGS)
+            cases.append({"id": "%s%d_%d" % (prefix, i, k), "kind": "plss", "origin": "damaged document",
+                          "abs": {}, "args": {"text": " ".join(words), "config": cfg, "markers": markers,
+                                              "source": "SRC-1"}})
+    return cases
 
 
 def run(ctx):
@@ -14,7 +52,25 @@ def run(ctx):
     cases = plsssoup.model_cases(ctx, 4 if thorough else 3, plsssoup.ALL_CONFIGS, keep=0.5 if thorough else 1.0)
     ctx.exhaustive = not thorough
     plsssoup.judge(ctx, PROP, cases)
-    ctx.rule = "token sequences x configurations of spec/PlssDesc.tla"
+    # longer sequences over the core alphabet: every arrangement of marker words around one Twp/Rge and sections
+    more = plsssoup.model_cases(ctx, 6 if thorough else 5,
+                                ["default", "segment", "secwithin", "seg_within", "within_req", "cautious", "f_S_desc_TR",
+                                 "f_TRS_desc", "f_desc_STR"],
+                                keep=0.5 if thorough else 0.3, check_model=False, prefix="k", alphabet="core", minlen=4)
+    plsssoup.judge(ctx, PROP, more)
+    # damaged documents with four marker insertions each
+    res = ctx.tlc("PlssDoc", {"MaxGroups": 2, "MaxSecs": 2, "TRIds": {1, 2}, "Fault": "none", "EmitCases": True},
+                  invariants=["EmitCase"], workers=1, count=False)
+    shapes = [a for a in res.cases if ctx.rng.random() < (0.5 if thorough else 0.08)]
+    plsssoup.judge(ctx, PROP, doc_cases(ctx, shapes, 4 if thorough else 3))
+    ctx.rule = ("(a) token sequences of spec/PlssDesc.tla (<= %d tokens, 15 configurations) whose long text tokens are "
+                "unique marker words, (b) core-alphabet sequences of 4..%d tokens under 9 configurations, (c) rendered "
+                "documents (shapes from spec/PlssDoc.tla), damaged (colons removed, word deleted, stray Twp/Rge or section "
+                "added) with 4 marker words inserted at random word boundaries x 12 configurations; non-trivial = distinct "
+                "(text, configuration)" % (4 if thorough else 3, 6 if thorough else 5))
+    ctx.assumptions += ["marker words are 6 letters over {Q,X,J,V,Z,K}: they match none of the library's patterns and are "
+                        "never culled or below the 4-character reporting threshold",
+                        "no principal-meridian phrases are generated (insertion points inside them are exempt)"]
 
 
 def replay(ctx, payload):
